@@ -1,23 +1,29 @@
 #!/bin/bash
-# applies every seeded breaking change to /repo in turn, runs the check of the property it breaks, records the
-# outcome in the seed's meta.json, and restores /repo. /repo must be clean.
-cd /repo || exit 2
-if [ -n "$(git status --porcelain)" ]; then echo "/repo is not clean"; exit 2; fi
+# Applies every seeded breaking change (seeded/*/patch.diff) to a scratch worktree of /repo HEAD in turn, runs the check of
+# the property it breaks against that worktree (evidence and replay files go to a scratch directory), records the outcome
+# in the seed's meta.json. /repo itself is not touched. usage: tools_seedcheck.sh [seed-id]
+export GOFLAGS=-mod=mod GOPROXY=off GOSUMDB=off GOTOOLCHAIN=local
+wt=/var/tmp/seedcheck-wt-$$
+out=/var/tmp/seedcheck-out-$$
+mkdir -p "$out"
+git -C /repo worktree add -q --detach "$wt" HEAD || exit 2
+trap 'git -C /repo worktree remove --force "$wt" >/dev/null 2>&1; rm -rf "$out"' EXIT
 for d in /verif/seeded/*/; do
   id=$(basename "$d")
   [ -n "$1" ] && [ "$1" != "$id" ] && continue
+  [ -f "$d/meta.json" ] || continue
   prop=$(python3 -c "import json;print(json.load(open('$d/meta.json'))['breaks_property'])")
-  if ! git apply --check "$d/patch.diff" 2>/dev/null; then echo "$id: patch no longer applies"; continue; fi
-  git apply "$d/patch.diff"
-  out=$(cd /verif && ./check "$prop" 2>&1 | tail -12)
-  git checkout -- . 
-  python3 - "$d" "$out" <<'PY'
+  ( cd "$wt" && git checkout -q -- . )
+  if ! ( cd "$wt" && git apply "$d/patch.diff" 2>/dev/null ); then echo "$id: patch no longer applies"; continue; fi
+  res=$(cd /verif && VERIF_OUT="$out" ./bin/vcgen check "$prop" --repo="$wt" 2>&1 | grep -v KNOWN-FINDING | tail -14)
+  python3 - "$d" "$res" <<'PY'
 import json,sys,re
 d,out=sys.argv[1],sys.argv[2]
 m=json.load(open(d+'/meta.json'))
 viol='VIOLATION property=' in out
 m['detected_by_check']=viol
 m['failed_obligations']=re.findall(r'failed: (.*)',out)
+m['violation_line']=[l for l in out.split('\n') if l.startswith('VIOLATION')][:1]
 json.dump(m,open(d+'/meta.json','w'),indent=1)
 print(m['id'], 'DETECTED' if viol else 'MISSED', m['failed_obligations'][:3])
 PY
